@@ -236,8 +236,7 @@ where A::State: Clone {
     let d = json!({"what": "search", "automaton": what, "lo": bound_json(&lo), "hi": bound_json(&hi), "dict": desc, "accepted": flags.iter().filter(|f| **f).count()});
     out.count("search_cases", 1);
     let Some(got) = got else {
-        // an inverted range over several blocks panics (F151) whatever the automaton
-        if inverted(&lo, &hi) { out.count("search_inverted_panics", 1); } else { out.spec_checked(false, json!({"panic": true, "case": d})); }
+        out.spec_checked(false, json!({"what": "search stream panicked", "panic": true, "case": d}));
         return;
     };
     out.spec_checked(got == want, json!({"got_len": got.len(), "want_len": want.len(), "case": d}));
@@ -285,6 +284,22 @@ fn main() {
         let n = if style == 4 { n.min(if thorough { 40 } else { 8 }) } else { n };
         let bl = match rng.below(8) { 0 => Some(0), 1 => Some(1), 2 => Some(rng.range(2, 20) as usize), 3 => Some(rng.range(20, 200) as usize), 4 => Some(4000), 5 => Some(2040 + rng.below(20) as usize), _ => None };
         cfgs.push(Cfg { style, n, block_len: bl, big: if i % 7 == 0 && thorough { 40_000 } else { 6000 }, what: "random" });
+    }
+
+    // regression (former F151 witness): keys a,b,c,d one per block, range ge d .. lt a, and the 40-counter variant
+    for (n, bl, lo, hi) in [(4usize, 0usize, b"d".to_vec(), b"a".to_vec()), (40, 4, b"k030".to_vec(), b"k005".to_vec())] {
+        let kvs: Kvs = (0..n).map(|i| (if n == 4 { vec![b'a' + i as u8] } else { format!("k{:03}", i).into_bytes() }, i as u64 + 1)).collect();
+        match build_u64(&kvs, Some(bl)) {
+            Ok(b) => for limit in [None, Some(1u64)] {
+                let (lo, hi) = (Bound::Included(lo.clone()), Bound::Excluded(hi.clone()));
+                let got = stream_all(range_builder(b.dict.range(), &lo, &hi, limit));
+                let d = json!({"what": "inverted range over several blocks (regression F151)", "n": n, "block_len": bl, "lo": bound_json(&lo), "hi": bound_json(&hi), "limit": limit});
+                out.spec_checked(got == Some(vec![]), json!({"got": format!("{:?}", got), "want": "[]", "case": d}));
+                if let Some(g) = &got { out.coq_case("spec", format!("spec_range N.eqb {} {} {} {} {}", kvs_term(&kvs), bound_term(&lo), bound_term(&hi), cf::option(&limit, |l| l.to_string()), kvs_term(g)), d.clone(), true); }
+                out.coq_case("tie", format!("tie_range N.eqb {} {} {} {} {} {}", bl, kvs_term(&kvs), bound_term(&lo), bound_term(&hi), cf::option(&limit, |l| l.to_string()), cf::option(&got, |g| kvs_term(g))), d, true);
+            },
+            Err(e) => out.spec_checked(false, json!({"what": "regression dictionary failed to build", "panic": e})),
+        }
     }
 
     let mut corpus: Vec<(Kvs, Option<usize>)> = vec![]; // reused by merges
@@ -378,14 +393,9 @@ fn main() {
             out.count(if inverted(&lo, &hi) { "ranges_inverted" } else if want.is_empty() { "ranges_empty" } else { "ranges_nonempty" }, 1);
             match &got {
                 None => {
+                    // a panic is a violation like any other (the class F151 is repaired in /repo)
                     out.count("range_panics", 1);
-                    // never hidden: Coq decides whether this panic lies in the known class F151
-                    if total_bytes <= 4000 && keys.len() <= 300 {
-                        out.coq_case("known:F151", format!("f151_class {} {} {} {}", bl_n, kvs_term(&kvs), bound_term(&lo), bound_term(&hi)), d.clone(), true);
-                    } else {
-                        out.spec_fail.push(if inverted(&lo, &hi) { json!({"known": "F151", "panic": true, "case": d}) } else { json!({"panic": true, "case": d}) });
-                        out.n_spec += 1;
-                    }
+                    out.spec_checked(false, json!({"what": "range stream panicked", "panic": true, "case": d}));
                 }
                 Some(got) => {
                     let ok = match limit { None => *got == want, Some(l) => got.len() <= want.len() && got[..] == want[..got.len()] && got.len() as u64 >= l.min(want.len() as u64) };
@@ -682,12 +692,10 @@ fn main() {
         out.count("malformed_streams", 1);
         out.count(if rejected_at.is_some() { "malformed_rejected" } else { "malformed_accepted" }, 1);
         out.coq_case("tie", format!("tie_reject {} {} {}", bl, keys_term(&ks), optn(&rejected_at)), desc.clone(), true);
-        if !sorted && rejected_at.is_none() {
-            // the implementation silently accepted an unordered stream: only excusable inside the known class
-            out.coq_case("known:F11", format!("f11_class {} {}", bl, keys_term(&ks)), desc, true);
-        } else {
-            out.coq_case("spec", format!("spec_rejects {} {}", keys_term(&ks), cf::boolean(rejected_at.is_none())), desc, true);
-        }
+        // spec: an unordered stream must not be silently accepted (F11 is repaired in /repo: its witness is the
+        // first stream of this list and is now an ordinary regression case)
+        out.spec_checked(sorted || rejected_at.is_some(), json!({"what": "an unordered key stream was silently accepted", "case": desc}));
+        out.coq_case("spec", format!("spec_rejects {} {}", keys_term(&ks), cf::boolean(rejected_at.is_none())), desc, true);
     }
 
     out.finish(json!({"tier": args.tier, "seed": args.seed}));
